@@ -54,7 +54,10 @@ def random_rows(rng: random.Random):
         for _ in range(n):
             rows.append({"cid": c, "chan": 1, "pos": x})
             x += rng.choice([0, 1, 7, rng.randint(10, 200000)])
-        rows.append({"cid": c, "chan": 0, "pos": x + rng.randint(0, 50000)})
+        # the end marker: often within the last (fractional) base pair after the last label, or exactly on it
+        back = rng.choice([0, 0, 1, 7]) if n else 0
+        rows.append({"cid": c, "chan": 0, "pos": rng.choice([x, x, max(x - back, 0) + rng.choice([0, 3, 9]),
+                                                           x + rng.randint(0, 50000)])})
     rng.shuffle(rows)
     flt = [] if rng.random() < 0.4 else rng.sample(ids + [99], rng.randint(1, len(ids)))
     return {"rows": rows, "filter": sorted(set(flt))}
@@ -64,7 +67,8 @@ def run(ctx: Ctx):
     quick = ctx.tier == "quick"
     rng = random.Random(ctx.seed * 2741 + 17)
     ctx.rule = ("row lists MC_Cmap enumerates (<=2 molecules, 0-2 labels, all row orders and filters; printed by TLC) and "
-                "random files of 1-6 molecules with 0-30 labels (coincident labels, one-decimal coordinates, shuffled "
+                "random files of 1-6 molecules with 0-30 labels (coincident labels, one-decimal coordinates, labels inside "
+                "the last fractional base pair before a non-integral end marker, shuffled "
                 "rows, with/without extra columns, filters incl. absent ids), rendered as CMAP text and read by the real "
                 "CmapReader (readQueries / readReferences); every map read is trimmed once and twice. non-trivial = "
                 "distinct file with >= 2 molecules or a molecule without labels or an id filter")
